@@ -185,9 +185,10 @@ def nextShuffle (n : Nat) : M (List Nat) := do
     else fail .desync
   | _ => fail .desync
 
+/-- `random.random()`: a value in `[0, 1)` (the recorded value is checked). -/
 def nextRandom : M Q := do
   match (← popEv) with
-  | .real k q => if k = .random then pure q else fail .desync
+  | .real k q => if k = .random ∧ qle 0 q = true ∧ qlt q 1 = true then pure q else fail .desync
   | _ => fail .desync
 
 /-- `random.uniform(lo, hi)`; the recorded value is checked to lie in `[lo, hi]`. -/
@@ -262,21 +263,37 @@ def mkChild (d : DNA) : M Ind := do
 
 /-! ## Mutator `Uniform` (mutators.py:68-171) -/
 
+/-- what a `where` filter can see of a DNA node: `kind` 0 = float, 1 = single choice, 2 = multi-choice
+node (value-less), 3 = subchoice of a multi-choice; the chosen candidate; the subchoice index the node
+is bound to. -/
+structure NodeInfo where
+  kind : Nat
+  value : Nat
+  index : Nat
+
+/-- a `where` argument: which nodes may be touched (`fun _ => true` when the argument is omitted). -/
+abbrev Where := NodeInfo → Bool
+
+def entryInfo (k b v : Nat) : NodeInfo := ⟨if k == 1 then 1 else 3, v, b⟩
+def multiInfo : NodeInfo := ⟨2, 0, 0⟩
+def floatInfo : NodeInfo := ⟨0, 0, 0⟩
+
 mutual
   /-- number of nodes `_get_relationships` returns for this sub-tree. `coll`: this DNA is the only
   element of a chosen candidate (then a multi-choice has no node of its own). -/
-  def countNodes : GSpec → Bool → DNA → Nat
-    | .space es, inCand, .space ds => countElems es (inCand && es.length == 1) ds
+  def countNodes (w : Where) : GSpec → Bool → DNA → Nat
+    | .space es, inCand, .space ds => countElems w es (inCand && es.length == 1) ds
     | .choices k cands _ _, coll, .choices subs =>
-        (if k == 1 || coll then 0 else 1) + countSubs cands subs
-    | .float _ _, _, .float _ => 1
+        (if !(k == 1 || coll) && w multiInfo then 1 else 0) + countSubs w k cands subs
+    | .float _ _, _, .float _ => if w floatInfo then 1 else 0
     | _, _, _ => 0
-  def countElems : List GSpec → Bool → List DNA → Nat
-    | e :: es, c, d :: ds => countNodes e c d + countElems es c ds
+  def countElems (w : Where) : List GSpec → Bool → List DNA → Nat
+    | e :: es, c, d :: ds => countNodes w e c d + countElems w es c ds
     | _, _, _ => 0
-  def countSubs : List GSpec → List DNA → Nat
-    | cands, .sub _ v d :: rest =>
-        1 + (match cands[v]? with | some c => countNodes c true d | none => 0) + countSubs cands rest
+  def countSubs (w : Where) (k : Nat) : List GSpec → List DNA → Nat
+    | cands, .sub b v d :: rest =>
+        (if w (entryInfo k b v) then 1 else 0) +
+        (match cands[v]? with | some c => countNodes w c true d | none => 0) + countSubs w k cands rest
     | _, _ => 0
 end
 
@@ -321,79 +338,82 @@ def mutEntry (fuel k : Nat) (cands : List GSpec) (dist srt : Bool) (subs : List 
 
 mutual
   /-- mutate the `i`-th node (pre-order) of the sub-tree. -/
-  def mutNode (fuel : Nat) : GSpec → Bool → DNA → Nat → M DNA
+  def mutNode (w : Where) (fuel : Nat) : GSpec → Bool → DNA → Nat → M DNA
     | .space es, inCand, .space ds, i => do
-        let ds' ← mutElems fuel es (inCand && es.length == 1) ds i
+        let ds' ← mutElems w fuel es (inCand && es.length == 1) ds i
         pure (.space ds')
     | .choices k cands dist srt, coll, .choices subs, i =>
-        if !(k == 1 || coll) && i == 0 then
+        if (!(k == 1 || coll) && w multiInfo) && i == 0 then
           randomDna fuel (.choices k cands dist srt)
         else do
-          let i' := if k == 1 || coll then i else i - 1
-          match (← mutSubs fuel cands subs i') with
+          let i' := if !(k == 1 || coll) && w multiInfo then i - 1 else i
+          match (← mutSubs w fuel k cands subs i') with
           | .inl l => pure (.choices l)
           | .inr j => mutEntry fuel k cands dist srt subs j
     | .float lo hi, _, .float _, _ => randomDna fuel (.float lo hi)
     | _, _, _, _ => fail .desync
-  def mutElems (fuel : Nat) : List GSpec → Bool → List DNA → Nat → M (List DNA)
+  def mutElems (w : Where) (fuel : Nat) : List GSpec → Bool → List DNA → Nat → M (List DNA)
     | e :: es, c, d :: ds, i =>
-        let n := countNodes e c d
+        let n := countNodes w e c d
         if i < n then do
-          let d' ← mutNode fuel e c d i
+          let d' ← mutNode w fuel e c d i
           pure (d' :: ds)
         else do
-          let ds' ← mutElems fuel es c ds (i - n)
+          let ds' ← mutElems w fuel es c ds (i - n)
           pure (d :: ds')
     | _, _, _, _ => fail .desync
   /-- `inl l`: a node below one of the entries was mutated; `inr j`: the entry `j` itself is hit. -/
-  def mutSubs (fuel : Nat) : List GSpec → List DNA → Nat → M (List DNA ⊕ Nat)
+  def mutSubs (w : Where) (fuel k : Nat) : List GSpec → List DNA → Nat → M (List DNA ⊕ Nat)
     | cands, .sub b v d :: rest, i =>
-        if i == 0 then pure (.inr 0)
+        if w (entryInfo k b v) && i == 0 then pure (.inr 0)
         else
           match cands[v]? with
           | none => fail .desync
           | some c =>
-            let n := countNodes c true d
-            if i - 1 < n then do
-              let d' ← mutNode fuel c true d (i - 1)
+            let n := countNodes w c true d
+            if (if w (entryInfo k b v) then i - 1 else i) < n then do
+              let d' ← mutNode w fuel c true d (if w (entryInfo k b v) then i - 1 else i)
               pure (.inl (.sub b v d' :: rest))
             else do
-              match (← mutSubs fuel cands rest (i - 1 - n)) with
+              match (← mutSubs w fuel k cands rest ((if w (entryInfo k b v) then i - 1 else i) - n)) with
               | .inl l => pure (.inl (.sub b v d :: l))
               | .inr j => pure (.inr (j + 1))
     | _, _, _ => fail .desync
 end
 
 /-- `Uniform.mutate` on one DNA. -/
-def mutUniformOne (fuel : Nat) (g : GSpec) (d : DNA) : M DNA := do
-  let n := countNodes g false d
+def mutUniformOne (w : Where) (fuel : Nat) (g : GSpec) (d : DNA) : M DNA := do
+  let n := countNodes w g false d
   if n == 0 then fail .runtime           -- RuntimeError('Immutable DNA')
   else
     let i ← nextIdx .choice n
-    mutNode fuel g false d i
+    mutNode w fuel g false d i
 
 /-- `Mutator.mutate_list` (base.py:570-596) with `Uniform.mutate`. -/
-def mutUniform (fuel : Nat) (g : GSpec) : Op := fun pop =>
+def mutUniformW (w : Where) (fuel : Nat) (g : GSpec) : Op := fun pop =>
   forEachM (fun x => do
-    let d ← mutUniformOne fuel g x.dna
+    let d ← mutUniformOne w fuel g x.dna
     mkChild d) pop
+
+/-- without a `where` argument every node may be touched. -/
+def mutUniform (fuel : Nat) (g : GSpec) : Op := mutUniformW (fun _ => true) fuel g
 
 /-! ## Mutator `Swap` (mutators.py:191-224) -/
 
 mutual
   /-- the nodes `_get_candidate_nodes` returns (multi-choice nodes with a node of their own), as
   (sorted flag, number of children), in query order. -/
-  def swapCands : GSpec → Bool → DNA → List (Bool × Nat)
-    | .space es, inCand, .space ds => swapCandsElems es (inCand && es.length == 1) ds
+  def swapCands (w : Where) : GSpec → Bool → DNA → List (Bool × Nat)
+    | .space es, inCand, .space ds => swapCandsElems w es (inCand && es.length == 1) ds
     | .choices k cands _ srt, coll, .choices subs =>
-        (if k == 1 || coll then [] else [(srt, subs.length)]) ++ swapCandsSubs cands subs
+        (if !(k == 1 || coll) && w multiInfo then [(srt, subs.length)] else []) ++ swapCandsSubs w cands subs
     | _, _, _ => []
-  def swapCandsElems : List GSpec → Bool → List DNA → List (Bool × Nat)
-    | e :: es, c, d :: ds => swapCands e c d ++ swapCandsElems es c ds
+  def swapCandsElems (w : Where) : List GSpec → Bool → List DNA → List (Bool × Nat)
+    | e :: es, c, d :: ds => swapCands w e c d ++ swapCandsElems w es c ds
     | _, _, _ => []
-  def swapCandsSubs : List GSpec → List DNA → List (Bool × Nat)
+  def swapCandsSubs (w : Where) : List GSpec → List DNA → List (Bool × Nat)
     | cands, .sub _ v d :: rest =>
-        (match cands[v]? with | some c => swapCands c true d | none => []) ++ swapCandsSubs cands rest
+        (match cands[v]? with | some c => swapCands w c true d | none => []) ++ swapCandsSubs w cands rest
     | _, _ => []
 end
 
@@ -425,26 +445,26 @@ def swapList (l : List DNA) (i j : Nat) : List DNA :=
 
 mutual
   /-- swap the children `i`, `j` of the `c`-th candidate node. -/
-  def swapAt : GSpec → Bool → DNA → Nat → Nat → Nat → DNA
-    | .space es, inCand, .space ds, c, i, j => .space (swapAtElems es (inCand && es.length == 1) ds c i j)
+  def swapAt (w : Where) : GSpec → Bool → DNA → Nat → Nat → Nat → DNA
+    | .space es, inCand, .space ds, c, i, j => .space (swapAtElems w es (inCand && es.length == 1) ds c i j)
     | .choices k cands dist srt, coll, .choices subs, c, i, j =>
-        if !(k == 1 || coll) && c == 0 then
+        if (!(k == 1 || coll) && w multiInfo) && c == 0 then
           (if srt then .choices subs else .choices (swapList subs i j))
-        else .choices (swapAtSubs cands subs (if k == 1 || coll then c else c - 1) i j)
+        else .choices (swapAtSubs w cands subs (if !(k == 1 || coll) && w multiInfo then c - 1 else c) i j)
     | _, _, d, _, _, _ => d
-  def swapAtElems : List GSpec → Bool → List DNA → Nat → Nat → Nat → List DNA
+  def swapAtElems (w : Where) : List GSpec → Bool → List DNA → Nat → Nat → Nat → List DNA
     | e :: es, cl, d :: ds, c, i, j =>
-        let n := (swapCands e cl d).length
-        if c < n then swapAt e cl d c i j :: ds else d :: swapAtElems es cl ds (c - n) i j
+        let n := (swapCands w e cl d).length
+        if c < n then swapAt w e cl d c i j :: ds else d :: swapAtElems w es cl ds (c - n) i j
     | _, _, ds, _, _, _ => ds
-  def swapAtSubs : List GSpec → List DNA → Nat → Nat → Nat → List DNA
+  def swapAtSubs (w : Where) : List GSpec → List DNA → Nat → Nat → Nat → List DNA
     | cands, .sub b v d :: rest, c, i, j =>
         match cands[v]? with
         | none => .sub b v d :: rest
         | some cs =>
-          let n := (swapCands cs true d).length
-          if c < n then .sub b v (swapAt cs true d c i j) :: rest
-          else .sub b v d :: swapAtSubs cands rest (c - n) i j
+          let n := (swapCands w cs true d).length
+          if c < n then .sub b v (swapAt w cs true d c i j) :: rest
+          else .sub b v d :: swapAtSubs w cands rest (c - n) i j
     | _, ds, _, _, _ => ds
 end
 
@@ -455,21 +475,23 @@ def findFirstUnsorted (cs : List (Bool × Nat)) : List Nat → Option (Nat × Na
     | some (false, n) => some (p, n)
     | _ => findFirstUnsorted cs ps
 
-def mutSwapOne (g : GSpec) (d : DNA) : M DNA := do
-  let cs := swapCands g false d
+def mutSwapOne (w : Where) (g : GSpec) (d : DNA) : M DNA := do
+  let cs := swapCands w g false d
   let perm ← nextShuffle cs.length
   match findFirstUnsorted cs perm with
   | none => pure d
   | some (c, n) =>
     let ij ← nextSample n 2
     match ij with
-    | [i, j] => pure (swapAt g false d c i j)
+    | [i, j] => pure (swapAt w g false d c i j)
     | _ => fail .desync
 
-def mutSwap (g : GSpec) : Op := fun pop =>
+def mutSwapW (w : Where) (g : GSpec) : Op := fun pop =>
   forEachM (fun x => do
-    let d ← mutSwapOne g x.dna
+    let d ← mutSwapOne w g x.dna
     mkChild d) pop
+
+def mutSwap (g : GSpec) : Op := mutSwapW (fun _ => true) g
 
 /-! ## Selectors (selectors.py) -/
 
